@@ -175,6 +175,7 @@ theorem find_mirror_s (l t : Bits) (a b : Nat) (hab : a ≤ b) (hb : b ≤ l.len
     find_ .lsb0 l t a b false = find_ .msb0 l.reverse t.reverse a b false := by
   unfold find_
   dsimp only
+  simp only [Bool.false_eq_true, ↓reduceIte]
   rw [msb0Window_eq_s _ _ _ hab hb]
   simp only [rfindStore, findStore]
   rw [search_reverse_s l t a b hab hb ht]
@@ -185,6 +186,7 @@ theorem rfind_mirror_s (l t : Bits) (a b : Nat) (hab : a ≤ b) (hb : b ≤ l.le
   unfold rfind_
   dsimp only
   rw [msb0Window_eq_s _ _ _ hab hb]
+  simp only [Bool.false_eq_true, ↓reduceIte]
   simp only [rfindStore, findStore]
   rw [search_reverse_s l t a b hab hb ht]
   simp only [Bool.false_eq_true, not_false_eq_true, if_true, List.getLast?_reverse, List.head?_map]
@@ -389,5 +391,61 @@ theorem findall_lsb0_mirror_s (l t : Bits) (start stop : Option Int) (count : Op
         unfold findall_
         dsimp only
         exact findall_fixed_chunks_eq_s _ (chunkIncrement_pos_s t) l t a b _ ba hv'.1 hv'.2 ht
+
+/-! ### find / rfind with `bytealigned=True` -/
+
+theorem find_mirror_aligned_s (l t : Bits) (a b : Nat) (hab : a ≤ b) (hb : b ≤ l.length) (ht : t ≠ []) :
+    find_ .lsb0 l t a b true = find_ .msb0 l.reverse t.reverse a b true := by
+  unfold find_
+  dsimp only
+  simp only [↓reduceIte]
+  rw [findall_fixed_chunks_eq_s _ (chunkIncrement_pos_s t) l t a b (some 1) true hab hb ht]
+  simp only [findallMsb0, findStore, Bool.not_true, Bool.false_eq_true, ↓reduceIte, not_true_eq_false]
+  congr 1
+  cases findallMsb0Store l.reverse t.reverse a b true <;> rfl
+
+theorem rfind_mirror_aligned_s (l t : Bits) (a b : Nat) (hab : a ≤ b) (hb : b ≤ l.length) (ht : t ≠ []) :
+    rfind_ .lsb0 l t a b true = rfind_ .msb0 l.reverse t.reverse a b true := by
+  have htr : t.reverse ≠ [] := by simpa using ht
+  unfold rfind_
+  dsimp only
+  rw [msb0Window_eq_s _ _ _ hab hb]
+  simp only [↓reduceIte, rfindStore, Bool.not_true, Bool.false_eq_true, not_true_eq_false]
+  congr 1
+  have h1 : findallMsb0Store l t (l.length - b) (l.length - a) false = search l t (l.length - b) (l.length - a) := by
+    simp [findallMsb0Store]
+  rw [h1, search_reverse_s l t a b hab hb ht, List.filter_reverse, List.getLast?_reverse, List.head?_filter,
+    List.find?_map]
+  rfl
+
+theorem find_lsb0_mirror_s (l t : Bits) (start stop : Option Int) (ba : Bool) :
+    findOp .lsb0 l t start stop ba = findOp .msb0 l.reverse t.reverse start stop ba := by
+  simp only [findOp, List.length_reverse]
+  split
+  · rfl
+  · rename_i h0
+    have ht : t ≠ [] := by intro h; simp [h] at h0
+    split
+    · rfl
+    · rename_i a b hv
+      have := validateSlice_bounds_s hv
+      cases ba
+      · exact find_mirror_s l t a b this.1 this.2 ht
+      · exact find_mirror_aligned_s l t a b this.1 this.2 ht
+
+theorem rfind_lsb0_mirror_s (l t : Bits) (start stop : Option Int) (ba : Bool) :
+    rfindOp .lsb0 l t start stop ba = rfindOp .msb0 l.reverse t.reverse start stop ba := by
+  simp only [rfindOp, List.length_reverse]
+  split
+  · rfl
+  · rename_i a b hv
+    split
+    · rfl
+    · rename_i h0
+      have ht : t ≠ [] := by intro h; simp [h] at h0
+      have := validateSlice_bounds_s hv
+      cases ba
+      · exact rfind_mirror_s l t a b this.1 this.2 ht
+      · exact rfind_mirror_aligned_s l t a b this.1 this.2 ht
 
 end BM.C12
